@@ -718,7 +718,7 @@ func init() {
 						}
 						// the cap is computed by a helper of the package: its returns are the caps
 						if ce, ok := ast.Unparen(rs.Results[0]).(*ast.CallExpr); ok && depth < 2 {
-							if h := originOf(Callee(info, ce)); h != nil && h.Pkg() == fn.Pkg() && h.Type().(*types.Signature).Results().Len() == 1 {
+							if h := originOf(Callee(info, ce)); h != nil && h.Type().(*types.Signature).Results().Len() == 1 {
 								if hd := c.declOf[h]; hd != nil && hd.Body != nil {
 									checkReturns(FuncUnit{h, hd, c.pkgOf[hd]}, 1, depth+1)
 									continue
@@ -773,6 +773,36 @@ func init() {
 							if allOK && ndef > 0 {
 								obs = append(obs, mkOb(c, "SLEEP.cap-positive", u, construct, rs, Proved, "every value assigned to `"+term+"` is a positive constant or was compared with zero", true))
 								continue
+							}
+						}
+						// a local that is the first result of a (value, error) helper of the module, returned after the
+						// error was tested: the helper's error-free returns are the caps
+						if o := identObj(info, v); o != nil && depth < 2 {
+							var hcall *ast.CallExpr
+							ndef := 0
+							ast.Inspect(fd.Body, func(m ast.Node) bool {
+								as, ok := m.(*ast.AssignStmt)
+								if !ok {
+									return true
+								}
+								for i, l := range as.Lhs {
+									if identObj(info, l) != o {
+										continue
+									}
+									ndef++
+									if i == 0 && len(as.Lhs) == 2 && len(as.Rhs) == 1 {
+										hcall, _ = ast.Unparen(as.Rhs[0]).(*ast.CallExpr)
+									}
+								}
+								return true
+							})
+							if ndef == 1 && hcall != nil {
+								if h := originOf(Callee(info, hcall)); h != nil && h.Type().(*types.Signature).Results().Len() == 2 {
+									if hd := c.declOf[h]; hd != nil && hd.Body != nil {
+										checkReturns(FuncUnit{h, hd, c.pkgOf[hd]}, 2, depth+1)
+										continue
+									}
+								}
 							}
 						}
 						obs = append(obs, mkOb(c, "SLEEP.cap-positive", u, construct, rs, Violated, "sleepCap can return `"+term+"` without it having been shown positive: a zero or negative cap reads as `no limit`, so a host ceiling that is disabled (negative) removes the one-hour default", true))
